@@ -63,6 +63,18 @@ def make_rule(label):
     raise KeyError(label)
 
 
+def fresh_like(rule):
+    """a brand-new instance of the same rule with the same options: the stateless reference for
+    'what does this rule answer for this tree' (a rule must not depend on what it was asked before)"""
+    return make_rule(rule_label(rule))
+
+
+def raw_can(rule, node):
+    f = type(rule).can_apply_to
+    f = getattr(f, "__vmon_original__", f)
+    return f(rule, node)
+
+
 def type_tag(rule, node):
     """the rule's own classification arm (evidence only)"""
     gt = getattr(rule, "get_type", None)
@@ -124,14 +136,15 @@ def _pre_apply(self, node):
     path = S.path_from_root(node)
     order = S.nodes_inorder(root)
     index = next((i for i, n in enumerate(order) if n is node), -1)
-    try:
-        can = bool(self.can_apply_to(node))
-    except Exception as e:
-        can = None
     label = rule_label(self)
+    try:
+        ref = fresh_like(self)
+        can = bool(raw_can(ref, node))
+    except Exception as e:
+        ref, can = self, None
     return {
         "rule": self, "label": label, "before": before, "path": path, "index": index, "can": can,
-        "tag": type_tag(self, node) if can else "-", "text": S.text_of(root), "node_kind": S.kind(node),
+        "tag": type_tag(ref, node) if can else "-", "text": S.text_of(root), "node_kind": S.kind(node),
         "parent_kind": S.kind(node.parent) if node.parent is not None else "root",
         "node_shadow": S.shadow(node), "hints": list(HINTS),
     }
@@ -453,6 +466,15 @@ def _post_can(snap, a, k, res, exc):
         rec.violation("C06", f"can-unstable/{label}", "the same question got two different answers",
                       w({"summary": f"{label}.can_apply_to answered {res} then {again} on '{S.text_of(S.build(snap['sh']))}'"}))
         return
+    try:
+        stateless = raw_can(fresh_like(self), node)
+    except Exception:
+        stateless = res
+    rec.arm("can:fresh-instance-asked")
+    if bool(stateless) != bool(res):
+        rec.violation("C06", f"can-depends-on-history/{label}", "a rule instance that was used before answers differently from a fresh instance of the same rule",
+                      w({"summary": f"{label}.can_apply_to answered {res}, a fresh {label} instance answers {stateless} for the node at {''.join(snap['path'] or []) or 'root'} of '{S.text_of(S.build(snap['sh']))}'"}))
+        return
     if snap["path"] is not None:
         copy = S.build(snap["sh"])
         twin = S.follow(copy, snap["path"])
@@ -470,9 +492,12 @@ def attach_find():
     from mathy_core.rule import BaseRule
 
     def raw_can(rule):
-        f = type(rule).can_apply_to
+        # the reference answers come from a FRESH instance of the rule (stateless), asked through
+        # the unmonitored original method
+        ref = fresh_like(rule)
+        f = type(ref).can_apply_to
         f = getattr(f, "__vmon_original__", f)
-        return lambda n: f(rule, n)
+        return lambda n: f(ref, n)
 
     def post_nodes(snap, a, k, res, exc):
         rec = core.REC
